@@ -180,7 +180,8 @@ func (tx *Tx) CalcInputPreimageLegacy(inputNumber uint32, shf sighash.Flag) ([]b
 	// cleverly construct transactions which can steal those coins provided
 	// they can reuse signatures.
 	if shf.HasWithMask(sighash.Single) && int(inputNumber) > len(tx.Outputs)-1 {
-		return defaultHex, nil
+		// a copy: the caller owns what it is returned, the constant stays the constant
+		return append([]byte(nil), defaultHex...), nil
 	}
 
 	txCopy := tx.Clone()
